@@ -275,10 +275,16 @@ func Run(r *core.Run) {
 			if ua == "" || ua == "replace" {
 				ua = "add-also-known-as"
 			}
+			// every operation gets its own window around its own anchoring time (1000, 2000, 3000): the operation before it was
+			// anchored outside that window, so a window compared with anything but the operation's own anchoring time shows
 			var from, until int64
-			if bc.window {
-				from, until = 5, 500
+			window := func(t int64) {
+				from, until = 0, 0
+				if bc.window {
+					from, until = t-5, t+5
+				}
 			}
+			window(1000)
 			ureq, err := client.NewUpdateRequest(&client.UpdateRequestInfo{DidSuffix: suffix, Patches: []patch.Patch{mkPatch(ua)}, UpdateCommitment: cm(upd2), UpdateKey: jwkOf(upd),
 				MultihashCode: bc.code, Signer: newSigner(upd), RevealValue: rv(upd), AnchorFrom: from, AnchorUntil: until})
 			if err != nil {
@@ -288,7 +294,7 @@ func Run(r *core.Run) {
 				return fail("update", msg, ureq)
 			}
 			want, werr := rpatch.Apply(implDoc(st), []any{ops.ParseJSON(patchTexts[ua])})
-			st2, msg := w.accept(ureq, operation.TypeUpdate, st, 20)
+			st2, msg := w.accept(ureq, operation.TypeUpdate, st, 1000)
 			if msg != "" {
 				return fail("update", msg, ureq)
 			}
@@ -296,6 +302,7 @@ func Run(r *core.Run) {
 				return fail("update", fmt.Sprintf("state %s differs from the intent %s", docView(implDoc(st2)), docView(want)), ureq)
 			}
 			// recover
+			window(2000)
 			ri := &client.RecoverRequestInfo{DidSuffix: suffix, RecoveryKey: jwkOf(rec), OpaqueDocument: opaque, RecoveryCommitment: cm(rec2), UpdateCommitment: cm(upd3), AnchorOrigin: bc.origin,
 				AnchorFrom: from, AnchorUntil: until, MultihashCode: bc.code, Signer: newSigner(rec), RevealValue: rv(rec)}
 			var rintent map[string]any
@@ -312,7 +319,7 @@ func Run(r *core.Run) {
 			if msg := signedWindow(rreq, from, until); msg != "" {
 				return fail("recover", msg, rreq)
 			}
-			st3, msg := w.accept(rreq, operation.TypeRecover, st2, 30)
+			st3, msg := w.accept(rreq, operation.TypeRecover, st2, 2000)
 			if msg != "" {
 				return fail("recover", msg, rreq)
 			}
@@ -320,6 +327,7 @@ func Run(r *core.Run) {
 				return fail("recover", fmt.Sprintf("state %s differs from the intent %s", docView(implDoc(st3)), docView(rintent)), rreq)
 			}
 			// deactivate
+			window(3000)
 			dreq, err := client.NewDeactivateRequest(&client.DeactivateRequestInfo{DidSuffix: suffix, RecoveryKey: jwkOf(rec2), Signer: newSigner(rec2), RevealValue: rv(rec2), AnchorFrom: from, AnchorUntil: until})
 			if err != nil {
 				return fail("deactivate", "builder refused valid input: "+err.Error(), nil)
@@ -327,7 +335,7 @@ func Run(r *core.Run) {
 			if msg := signedWindow(dreq, from, until); msg != "" {
 				return fail("deactivate", msg, dreq)
 			}
-			st4, msg := w.accept(dreq, operation.TypeDeactivate, st3, 40)
+			st4, msg := w.accept(dreq, operation.TypeDeactivate, st3, 3000)
 			if msg != "" {
 				return fail("deactivate", msg, dreq)
 			}
